@@ -338,13 +338,17 @@ def validate(traces, release):
 def run(rep):
     release = detect_release_on_known()
     rep.extra["code_releases_key_lock_on_known_value"] = release
-    # ---- stage 1
+    # ---- stage 1 (the two exhaustive runs side by side)
     inv = "\n".join("INVARIANT " + i for i in INVS) + "\nPROPERTY KnownIsStable\nPROPERTY EveryoneFinishes\nVIEW View"
-    r1 = tlc.run("MC_H2Probe", _cfg(release, inv), workers=4, heap="3g", expect_fail=True, timeout=1800)
+    from concurrent.futures import ThreadPoolExecutor
+    w = max(2, min(4, tlc.NCPU // 2))
+    with ThreadPoolExecutor(2) as ex:
+        f1 = ex.submit(tlc.run, "MC_H2Probe", _cfg(release, inv), workers=w, heap="3g", expect_fail=True, timeout=1800)
+        f2 = ex.submit(tlc.run, "MC_H2Probe", _cfg(False, inv), workers=w, heap="3g", expect_fail=True, timeout=1800)
+        r1, can = f1.result(), f2.result()
     rep.add_tlc("H2Probe exhaustive (3 threads, 2 origins, all plans), model of the code as it is", r1)
     design_violated = sorted(set(r1.violated))
     rep.extra["stage1_model_of_code_violates"] = design_violated
-    can = tlc.run("MC_H2Probe", _cfg(False, inv), workers=4, heap="3g", expect_fail=True, timeout=1800)
     if not can.violated:
         raise tlc.MachineryError("canary: TLC did not refute the design that keeps the key lock on a known value")
     rep.extra["canary"] = "design with ReleaseOnKnown=FALSE refuted by TLC: " + ", ".join(sorted(set(can.violated)))
@@ -365,7 +369,7 @@ def run(rep):
         scheds = tlc.tagged_json(r2.out, "SCHED")
         if not scheds:
             raise tlc.MachineryError("TLC emitted no schedule:\n" + r2.out[-1500:])
-        cap = 400 if rep.tier == "quick" else 5000
+        cap = 150 if rep.tier == "quick" else 5000
         rng = random.Random(rep.seed * 7919 + si)
         if len(scheds) > cap:
             scheds = rng.sample(scheds, cap)
@@ -386,8 +390,8 @@ def run(rep):
     rep.extra["tlc_schedules_replayed"] = emitted
     # ---- stage 3: schedules found on the code itself
     bound = 2 if rep.tier == "quick" else 3
-    cap = 300 if rep.tier == "quick" else 4000
-    nrand = 100 if rep.tier == "quick" else 2000
+    cap = 120 if rep.tier == "quick" else 4000
+    nrand = 40 if rep.tier == "quick" else 2000
     for si, (ko, pl) in enumerate(scen if rep.tier == "quick" else all_scenarios()):
         scn = {"keyof": ko, "plan": pl}
         rng = random.Random(rep.seed * 104729 + si)
